@@ -1,5 +1,5 @@
 (** C12 — every escrow record is well-formed and therefore payable. *)
-From FM Require Import Accept Reentrant.
+From FM Require Import Accept Reentrant CallSeq.
 
 (** [wf_gbal g]: at least one asset, every amount in 1 .. 2^128-1, no duplicate denomination,
     token or NFT.  [wf_listing k l]: filed under (creator, id); goods and ask well-formed; ask
@@ -24,6 +24,11 @@ Theorem C12_wf_always_with_reentry : forall w tx, initial w ->
   (forall k b, In (k, b) (buckets s) -> wf_bucket k b).
 Proof. exact reach_wf_with_reentry. Qed.
 Print Assumptions C12_wf_always_with_reentry.
+
+(** Under every interleaving: the invariant holds after any sequence of successful calls. *)
+Theorem C12_wf_under_every_interleaving : forall s s', mreach s s' -> Inv s -> Inv s'.
+Proof. exact mreach_Inv. Qed.
+Print Assumptions C12_wf_under_every_interleaving.
 
 (** The invariant is inductive for every message, from every state (not only reachable ones). *)
 Theorem C12_every_message_preserves_wf : forall o e sender fs m s s' out,
